@@ -24,16 +24,16 @@ func init() { registerKind("collect", genCollect, "collect", runCollectCase) }
 
 // collectProbe plays its script inside Subscribe (sync) or from a goroutine (async)
 type collectProbe struct {
-	mu      sync.Mutex
-	script  []Tok
-	async   bool
-	dest    ro.Observer[int]
-	subCtx  context.Context
-	played  chan struct{} // closed when the whole script has been emitted
-	gate    chan struct{} // async: when non-nil, the player waits for it
-	once    sync.Once
-	subs    int
-	tdowns  int
+	mu     sync.Mutex
+	script []Tok
+	async  bool
+	dest   ro.Observer[int]
+	subCtx context.Context
+	played chan struct{} // closed when the whole script has been emitted
+	gate   chan struct{} // async: when non-nil, the player waits for it
+	once   sync.Once
+	subs   int
+	tdowns int
 }
 
 func (p *collectProbe) Observable() ro.Observable[int] {
